@@ -87,7 +87,7 @@ func chainStage(c *Ctx) error {
 			}
 			parent = b
 		}
-		node.Close()
+		node.CloseSettled()
 		os.RemoveAll(dir)
 	}
 	c.Stats.Distribution["chain-schedule.checked"] = checked
